@@ -2,6 +2,7 @@ package main
 
 import (
 	"crypto/sha256"
+	"encoding/binary"
 	"fmt"
 
 	"circlsim/core"
@@ -14,6 +15,7 @@ import (
 	"github.com/cloudflare/circl/oprf"
 	"github.com/cloudflare/circl/sign/bls"
 	signschemes "github.com/cloudflare/circl/sign/schemes"
+	"github.com/cloudflare/circl/simd/keccakf1600"
 )
 
 // coldFam: callers that share NO object — each task sets up a system of its own (an
@@ -38,7 +40,7 @@ func coldFam() famDef {
 	groups := []group.Group{group.P256, group.P384, group.P521, group.Ristretto255}
 	suites := []oprf.Suite{oprf.SuiteRistretto255, oprf.SuiteP256, oprf.SuiteP384}
 	kems := []hpke.KEM{hpke.KEM_X25519_HKDF_SHA256, hpke.KEM_X448_HKDF_SHA512, hpke.KEM_P256_HKDF_SHA256, hpke.KEM_X25519_KYBER768_DRAFT00}
-	return famDef{name: "cold", cold: true, late: true, kinds: []string{"tkn20", "bls", "group", "kem", "sign", "oprf", "hpke", "pairing", "tkn20"}, build: func(seed uint64) *shared {
+	return famDef{name: "cold", cold: true, late: true, kinds: []string{"tkn20", "bls", "group", "kem", "sign", "oprf", "hpke", "pairing", "keccak.x2", "keccak.x4", "tkn20"}, build: func(seed uint64) *shared {
 		return &shared{ops: map[string]func(uint64) []byte{
 			"tkn20": func(a uint64) []byte {
 				pk, msk, err := tkn20.Setup(core.NewStream(seed + 100 + a))
@@ -160,6 +162,40 @@ func coldFam() famDef {
 					return []byte("open-err")
 				}
 				return digest(enc, ct, pt)
+			},
+			// multi-lane Keccak states of the task's own (the generic code path de-interleaves
+			// the lanes into scratch space): 2 and 4 lanes, full and reduced rounds
+			"keccak.x2": func(a uint64) []byte {
+				var st keccakf1600.StateX2
+				w := st.Initialize(a&1 == 1)
+				r := core.NewPRNG(seed + 1100 + a)
+				for i := range w[:50] {
+					w[i] = r.Uint64()
+				}
+				for i := 0; i < 3; i++ {
+					st.Permute()
+				}
+				out := make([]byte, 0, 400)
+				for _, x := range w[:50] {
+					out = binary.LittleEndian.AppendUint64(out, x)
+				}
+				return digest(out)
+			},
+			"keccak.x4": func(a uint64) []byte {
+				var st keccakf1600.StateX4
+				w := st.Initialize(a&1 == 1)
+				r := core.NewPRNG(seed + 1200 + a)
+				for i := range w[:100] {
+					w[i] = r.Uint64()
+				}
+				for i := 0; i < 3; i++ {
+					st.Permute()
+				}
+				out := make([]byte, 0, 800)
+				for _, x := range w[:100] {
+					out = binary.LittleEndian.AppendUint64(out, x)
+				}
+				return digest(out)
 			},
 			"pairing": func(a uint64) []byte {
 				var k bls12381.Scalar
